@@ -123,6 +123,7 @@ def _(self, cv, img_left, img_right):
                                 for k in range(cv.coords["disp"].data.shape[0])))
     assigns(cv)
     raises_never()
+    option(budget=4)   # the 'winner' clause needs ~10 s of z3 on an idle machine: keep the verdict stable under load
     # C03: a pixel with a computable cost gets the sampled disparity of the first best cost; others exactly invalid_disparity
     ensures("winner", all(
         (eq(result["disparity_map"].data[y, x], self._invalid_disparity)
